@@ -219,7 +219,10 @@ impl Model {
         let is_expected_data = matches!(&now, Some(CState::Data { bytes, .. }) if **bytes == **expect);
         // an earlier damaged / linked file may legitimately stay as it was (the write found
         // the address occupied); otherwise the complete data must be there
-        let ok = is_expected_data || if must_hold_data { now == prev && prev.is_some() } else { now == prev };
+        // after a SUCCESSFUL write the complete data is there — whatever sat at the address before
+        // (a damaged file, a link to something else) has been replaced; only a directory cannot be
+        // renamed over and stays (the library then takes the address for occupied)
+        let ok = is_expected_data || if must_hold_data { now == prev && matches!(prev, Some(CState::Dir)) } else { now == prev };
         if !ok {
             return Err(format!(
                 "{what}: content file {} holds {} after the call (before: {}; data written: {} bytes)",
@@ -527,6 +530,33 @@ impl Model {
                         Ok(())
                     }
                 }
+            }
+            Op::Abandon { spec, at: AbandonAt::CancelThenCommit(_) } => {
+                // whether the cancelled chunk counts is the library's choice; what its commit
+                // published (if anything) is taken from the disk — the content invariant still
+                // holds for it: a file under an address hashes to it
+                if !matches!(out, Out::Unit) {
+                    return Err(format!("cancelled write, then commit: {}", out.short()));
+                }
+                if !self.pure {
+                    let algo = if matches!(spec.entry, WEntry::OneShot | WEntry::Create) { Algo::Sha256 } else { spec.algo };
+                    // any prefix of the data may have been stored
+                    let base = reffmt::content_path(&ctx.cache, algo, "000000").parent().and_then(|p| p.parent()).and_then(|p| p.parent()).map(|p| p.to_path_buf());
+                    if let Some(dir) = base {
+                        for (rel, ft) in reffmt::walk_files(&dir) {
+                            if ft.is_file() {
+                                let hex: String = rel.split('/').collect();
+                                self.adopt_content(ctx, &(algo, hex));
+                            }
+                        }
+                    }
+                    if let Some(k) = spec.key {
+                        let key = ctx.key(k).to_string();
+                        self.adopt_bucket(ctx, &key);
+                        self.index_dir = ctx.cache.join("index-v5").exists();
+                    }
+                }
+                Ok(())
             }
             Op::Abandon { .. } => {
                 if matches!(out, Out::Unit) {
